@@ -48,10 +48,11 @@ func (f *fakeDrummer) GetShardStates(ctx context.Context, req *pb.ShardStateRequ
 // a linearizable register with injected latency and failures
 type fakeAPI struct {
 	mr.UnimplementedNodehostAPIServer
-	mu   sync.Mutex
-	val  string
-	r    *rand.Rand
-	fail int // one in `fail` operations fails (0 = never)
+	mu      sync.Mutex
+	val     string
+	r       *rand.Rand
+	fail    int      // one in `fail` operations fails (0 = never)
+	arrived []string // values of the writes that have reached the service
 }
 
 func (f *fakeAPI) jitter() (time.Duration, time.Duration, bool) {
@@ -68,12 +69,15 @@ func (f *fakeAPI) CloseSession(ctx context.Context, s *mr.Session) (*mr.SessionR
 	return &mr.SessionResponse{Completed: true}, nil
 }
 func (f *fakeAPI) Propose(ctx context.Context, p *mr.RaftProposal) (*mr.RaftResponse, error) {
-	before, after, failed := f.jitter()
-	time.Sleep(before)
 	var k kv.KV
 	if err := k.UnmarshalBinary(p.Data); err != nil {
 		return nil, err
 	}
+	f.mu.Lock()
+	f.arrived = append(f.arrived, k.Val) // the write has reached the service
+	f.mu.Unlock()
+	before, after, failed := f.jitter()
+	time.Sleep(before)
 	applied := true
 	if failed {
 		// a failed write may or may not have taken effect
@@ -148,7 +152,6 @@ func wellFormed(evs []lcm.VerifEvent) string {
 	}
 	return ""
 }
-
 
 var run *hx.Run
 
@@ -357,6 +360,37 @@ func main() {
 			for round := 0; round < 120; round++ {
 				c.VerifSchedule()
 				time.Sleep(time.Duration(1+r.Intn(3)) * time.Millisecond)
+			}
+		} else if n%3 == 2 {
+			// schedule search, second kind: the history mutex is held (as by the recorder of another process, or by
+			// SaveAsJepsenLog) while the scheduler runs. Whatever reaches the register service in the meantime must already
+			// have its invocation in the history: an invocation is logged before the operation starts.
+			run.Count("c07:lock_contention_runs")
+			for round := 0; round < 40; round++ {
+				c.VerifLockHistory()
+				done := make(chan struct{})
+				go func() { c.VerifSchedule(); close(done) }()
+				time.Sleep(time.Duration(3+r.Intn(4)) * time.Millisecond)
+				logged := map[string]bool{}
+				for _, e := range c.VerifEventsLocked() {
+					if e.Type == 1 && e.Result == 0 {
+						logged[fmt.Sprint(e.Value)] = true
+					}
+				}
+				api.mu.Lock()
+				arrived := append([]string{}, api.arrived...)
+				api.mu.Unlock()
+				c.VerifUnlockHistory()
+				<-done
+				for _, v := range arrived {
+					if !logged[v] {
+						run.Violate(hx.Violation{Property: "C07", Clause: "invoke_logged_before_start", Signature: "operation-started-before-its-invocation-was-logged", Seq: n,
+							What: fmt.Sprintf("the write of %s reached the register service while the history (held locked by the harness, as another recorder would) had no invocation for it", v),
+							Ops:  []string{fmt.Sprintf("coordinator run %d, round %d: history mutex held; scheduleProcesses started; write %s arrived at the service; history read under the lock", n, round, v)}})
+						break
+					}
+				}
+				time.Sleep(time.Duration(2+r.Intn(6)) * time.Millisecond)
 			}
 		} else {
 			for round := 0; round < 25; round++ {
